@@ -73,7 +73,7 @@ CHECKS = {
          "property-based random program generation + metamorphic comparison across repetitions, interleavings, threads and processes",
          "§10 C12"),
  "C07": ("exploration",
-         "Seeded module programs await host orders inside 1-5 async segments drawn from 38 syntactic-position templates (try/finally with pending return/throw, catch, loops, for-of over arrays and generators, methods and arrows using this, super calls, nested async calls, destructuring defaults, template literals, call arguments, conditional/logical operands, block-scoped shadowing + closures, switch, labelled jumps, Promise.all/then over host promises, object responses), each reading live state after the await. Oracles: (1) inline-value relation - the same program with `order` replaced by an in-program stub returning the same values synchronously gives the same value and console output; (2) schedule independence over 4 host schedules (spurious steps, settle order and batching of outstanding host promises, GC thresholds 1/100); (3) zero stale-handle events (H1). Sampled, not exhaustive.",
+         "Seeded module programs await host orders inside 1-5 async segments drawn from 38 syntactic-position templates (try/finally with pending return/throw, catch, loops, for-of over arrays and generators, methods and arrows using this, super calls, nested async calls, destructuring defaults, template literals, call arguments, conditional/logical operands, block-scoped shadowing + closures, switch, labelled jumps, Promise.all/then over host promises, object responses), and from a compositional family (8 pending completions x 6 suspension sites inside finally blocks, incl. callee-thrown objects, labelled jumps and callees with their own try/finally), each reading live state after the await; handler templates register 3-4 then/catch/finally handlers on pending host promises that the host later resolves or rejects; the host forces collect() at schedule-chosen suspensions. Oracles: (1) inline-value relation - the same program with `order` replaced by an in-program stub returning the same values synchronously gives the same value and console output; (2) schedule independence over 4 host schedules (spurious steps, settle order and batching of outstanding host promises, GC thresholds 1/100); (3) zero stale-handle events (H1). Sampled, not exhaustive.",
          "Trusted: order() is a blocking syscall suspending the whole VM, so the sequential inline-value relation is exact; promise reactions run synchronously by design. Position templates are a fixed list; real promise-job ordering is not modelled (the check asserts only value, output and errors).",
          "property-based generation (proptest choice tape) + metamorphic relations (suspend vs inline value; host schedule permutations) + execution monitor",
          "§10 C07"),
